@@ -466,6 +466,26 @@ func generatePropertyGet(file *jen.File, serviceName string,
 		jen.Id("ret").Add(property.Type().TypeName()),
 		jen.Err().Error(),
 	)
+	if property.Type().Signature() == "m" {
+		// a property of dynamic type: the stored value, whatever its
+		// signature, is the property value.
+		body := jen.Block(
+			jen.Id("name").Op(":=").Qual(
+				"github.com/lugu/qiloop/type/value",
+				"String",
+			).Params(jen.Lit(property.Name)),
+			jen.Id(`ret, err = p.Property(name)`),
+			jen.Id(`if err != nil {
+			    return ret, fmt.Errorf("get property: %s", err)
+			}`),
+			jen.Id("return ret, nil"),
+		)
+		file.Comment(methodName + " returns the property value")
+		file.Func().Params(
+			jen.Id("p").Op("*").Id(serviceName),
+		).Id(methodName).Params().Add(retType).Add(body)
+		return nil
+	}
 	body := jen.Block(
 		jen.Id("name").Op(":=").Qual(
 			"github.com/lugu/qiloop/type/value",
